@@ -180,49 +180,65 @@ def sym_db(ex, prog, sizes, exists=None, fk=True, prefix=''):
     return db
 
 
-def assume_inv(ex, db):
-    rows = [r for e in ENTITIES for r in db.t[e]]
+def inv_formulas(ex, db, t=None):
+    """the representation invariant as labelled formulas over the rows t (default: the current tables of db)"""
+    t = db.t if t is None else t
+    out = []
+    rows = [r for e in ENTITIES for r in t.get(e, [])]
     ids = [r.v['id'] for r in rows]
-    if len(ids) > 1:
-        ex.assume(z3.Distinct(*ids))
+    for i in range(len(rows)):
+        for j in range(i + 1, len(rows)):
+            if not (rows[i].exists is True and rows[j].exists is True):
+                out.append(('ids-unique', Implies(And(rows[i].exists, rows[j].exists), Not(ex.eq(ids[i], ids[j])))))
+    if len(ids) > 1 and all(r.exists is True for r in rows):
+        out.append(('ids-unique', z3.Distinct(*ids)))
 
     def resolves(r, fkcol, target, nullable):
-        alts = [And(t.exists, r.v[fkcol] == t.v['id']) for t in db.t[target] if t is not r or True]
+        alts = [And(x.exists, ex.eq(r.v[fkcol], x.v['id'])) for x in t.get(target, [])]
         cond = Or(*alts) if alts else False
         if nullable:
             cond = Or(r.isnull(fkcol), cond)
-        ex.assume(Implies(r.exists, cond))
+        out.append(('foreign-key-resolves:%s.%s' % (target, fkcol), Implies(r.exists, cond)))
     for e in ENTITIES:
-        for r in db.t[e]:
+        for r in t.get(e, []):
             for edge, (fkcol, target) in M2O[e].items():
                 resolves(r, fkcol, target, db.schema.col(e, fkcol).nullable)
     for e in ('Topic', 'Subscription'):
-        for r in db.t[e]:
+        rs = t.get(e, [])
+        for r in rs:
             # live is NULL or TRUE; live NULL <=> deleted_at NOT NULL
-            ex.assume(z3.And(Or(r.null['live'], r.v['live']), zbool(r.null['live']) == Not(r.null['deleted_at'])))
-        rs = db.t[e]
+            out.append(('live-flag-matches-deleted_at:' + e, Implies(r.exists, And(Or(r.isnull('live'), r.v['live']), ex.eq(zbool(r.isnull('live')), Not(r.isnull('deleted_at')))))))
         for i in range(len(rs)):
             for j in range(i + 1, len(rs)):
                 a, b = rs[i], rs[j]
-                ex.assume(Implies(And(a.exists, b.exists, Not(a.null['live']), Not(b.null['live'])), a.v['name'] != b.v['name']))
-    rs = db.t['Snapshot']
+                out.append(('one-live-row-per-name:' + e, Implies(And(a.exists, b.exists, Not(a.isnull('live')), Not(b.isnull('live'))), Not(ex.eq(a.v['name'], b.v['name'])))))
+    rs = t.get('Snapshot', [])
     for i in range(len(rs)):
         for j in range(i + 1, len(rs)):
-            ex.assume(Implies(And(rs[i].exists, rs[j].exists), rs[i].v['name'] != rs[j].v['name']))
-    for r in db.t['Subscription']:
-        ex.assume(z3.And(r.v['ttl'] > 0, r.v['message_ttl'] > 0, r.v['delivery_delay'] >= 0, r.v['ttl'] < 2**55,
-                         r.v['message_ttl'] < 2**55, r.v['delivery_delay'] < 2**55))
-    for r in db.t['Delivery']:
-        ex.assume(z3.And(r.v['attempts'] >= 0, r.v['attempts'] < 2**30))
+            out.append(('one-snapshot-per-name', Implies(And(rs[i].exists, rs[j].exists), Not(ex.eq(rs[i].v['name'], rs[j].v['name'])))))
+    for r in t.get('Subscription', []):
+        out.append(('subscription-durations-in-range', Implies(r.exists, And(r.v['ttl'] > 0, r.v['message_ttl'] > 0, r.v['delivery_delay'] >= 0, r.v['ttl'] < 2**55,
+                                                                             r.v['message_ttl'] < 2**55, r.v['delivery_delay'] < 2**55))))
+    for r in t.get('Delivery', []):
+        out.append(('attempts-in-range', Implies(r.exists, And(r.v['attempts'] >= 0, r.v['attempts'] < 2**30))))
         # a delivery never is its own predecessor; predecessor on same subscription and not published later
-        for t in db.t['Delivery']:
-            link = And(r.exists, Not(r.isnull('not_before_id')), t.exists, r.v['not_before_id'] == t.v['id'])
-            if t is r:
-                ex.assume(Not(link))
+        for x in t.get('Delivery', []):
+            link = And(r.exists, Not(r.isnull('not_before_id')), x.exists, ex.eq(r.v['not_before_id'], x.v['id']))
+            if x is r:
+                out.append(('no-self-predecessor', Not(link)))
             else:
-                ex.assume(Implies(link, z3.And(t.v['subscription_id'] == r.v['subscription_id'],
-                                               t.v['published_at'] <= r.v['published_at'])))
-        # the delivery's message was published to ... (no constraint: dead-letter forwards cross topics)
+                out.append(('predecessor-on-same-subscription-and-not-later', Implies(link, And(ex.eq(x.v['subscription_id'], r.v['subscription_id']),
+                                                                                               x.v['published_at'] <= r.v['published_at']))))
+    return out
+
+
+def assume_inv(ex, db):
+    ids = [r.v['id'] for e in ENTITIES for r in db.t[e]]
+    if len(ids) > 1:
+        ex.assume(z3.Distinct(*ids))      # also for row slots that do not exist: harmless and cheaper than pairwise implications
+    for lbl, f in inv_formulas(ex, db):
+        if f is not True and lbl != 'ids-unique':
+            ex.assume(zbool(f))
 
 
 # ---------------------------------------------------------------- predicates & selectors
